@@ -132,15 +132,27 @@ func safeParseCtx(ctx context.Context, input []byte, budget int64) (obs ParseObs
 	return
 }
 
-// safeTokenize runs lexer.Tokenize under recover.
+// safeTokenize runs the lexer under recover. It is lexer.Tokenize with a cap: C12 promises at most one token per
+// input byte plus one, so a lexer that produces more is not terminating; the cap turns that into an observation
+// ("lexer-overflow") instead of an unbounded allocation in the worker.
 func safeTokenize(input []byte) (items []lexer.Item, panicVal string) {
 	defer func() {
 		if r := recover(); r != nil {
 			panicVal = fmt.Sprint(r)
 		}
 	}()
-	items = lexer.Tokenize(bytes.NewReader(input))
-	return
+	l := lexer.New(bytes.NewReader(input))
+	limit := len(input) + 8
+	for {
+		it := l.NextToken()
+		items = append(items, it)
+		if it.Token == token.EOF {
+			return
+		}
+		if len(items) > limit {
+			return items, "lexer-overflow: more tokens than input bytes (the lexer does not reach EOF)"
+		}
+	}
 }
 
 func pumpedTokens(items []lexer.Item) int {
